@@ -6,24 +6,24 @@
  *   dr_string_table_flatten   (src/profiler/dr_dump.c, through dr_pi_dag_set_string_table) S header, I[n], chars C
  *
  * The file is a GHOST LAYOUT: fwrite (stub with a body) records for every call the file offset, the source pointer and
- * the byte count; open/read/lseek/mmap/close (stubs with bodies) serve the file from one static byte buffer FILEBUF.
+ * the byte count; open/read/lseek/mmap/close (stubs with bodies) serve the file from that record.
  * ASSUMPTION (byte preservation by the file system and mmap): the bytes handed to fwrite appear at the recorded offset
- * of the mapping.  The stub implements it for exactly the bytes the reader inspects: every write of 8 or 45 bytes (the
- * version line and the four counts) and the first sizeof(dr_pi_string_table) bytes of every longer write (the string
- * table header).  All other bytes of the mapping are unconstrained, which is a sound under-approximation of the
- * assumption: a reader that looked at any other byte would read an arbitrary value and fail the obligations.
+ * of the mapping.  The stub implements it for exactly the bytes the reader inspects: the first header_sz = 77 bytes (the
+ * version line and the four counts) and the first sizeof(dr_pi_string_table) bytes of the last longer write (the string
+ * table header).  All other bytes of the mapping do not exist as memory, which is a sound under-approximation of the
+ * assumption: a reader that looked at any other byte would fail a pointer obligation.
  *
  * Obligations of h_file_layout (loop-free apart from libc strcmp on the 45-byte version line, unwound to that
  * constant): for EVERY n, m >= 0, start_clock, num_workers, every string table (count sn, size sz) such that the file
- * is at most FILE_MAX = 2^40 bytes:
- *   - the writer issues 8 writes, each from readable memory of the written size, T from G->T (n nodes), E from G->E
- *     (m edges), S from G->S (S->sz bytes), back to back, total = 45 + 32 + n*sizeof(node) + m*sizeof(edge) + S->sz;
+ * is at most FILE_MAX = 2^48 bytes:
+ *   - the writer issues 8 writes: T from G->T (n nodes), E from G->E (m edges), S from G->S (S->sz bytes), back to back,
+ *     total = 45 + 32 + n*sizeof(node) + m*sizeof(edge) + S->sz; it reports success iff every write succeeded;
  *   - the reader returns a DAG whose n, m, start_clock, num_workers are the written ones, whose T, E, S point at
  *     exactly the offsets of the mapping where the writer put T, E, S, and whose S->I / S->C point where
  *     dr_string_table_flatten laid out the index table and the characters (relative to S: ST_I_OFF, ST_C_OFF(n));
  *     everything lies inside the mapping; the mapping is private and writable (the reader patches S->I, S->C in it);
  *     the descriptor is closed on every path; if any I/O call fails the reader returns 0, never a half-read DAG.
- * Obligations of h_strtab_flatten (bounded: at most ST_N = 8 strings, any lengths): S->n, S->sz = allocated size =
+ * Obligations of h_strtab_flatten (bounded: at most ST_N = 8 strings, each shorter than ST_LEN_MAX = 4096): S->n, S->sz = allocated size =
  * 32 + 8 n + sum (len+1), I at ST_I_OFF, C at ST_C_OFF(n), I[i] = sum_{j<i} (len_j+1), string i copied to C + I[i],
  * every copy inside the allocation.
  */
